@@ -53,3 +53,5 @@ func RealExitError(code int) error {
 func FSWriteFile(p string, d []byte, m os.FileMode) error { return ioutil.WriteFile(p, d, m) }
 func FSReadFile(p string) ([]byte, error)                 { return ioutil.ReadFile(p) }
 func FSStat(p string) (os.FileInfo, error)                { return os.Stat(p) }
+
+func FSMkdirAll(p string, m os.FileMode) error { return os.MkdirAll(p, m) }
